@@ -18,10 +18,12 @@ theorem dequePop_eq {α : Type} (d : List α) (pos : Int) :
   unfold Gen.dequePop Deque.dequePop
   simp only [h4]
   by_cases hneg : pos < 0
-  · simp only [hneg, if_true]
-    split <;> rfl
-  · simp only [hneg, if_false]
-    rfl
+  · by_cases h2 : pos + (d.length : Int) < 0
+    · simp [hneg, h2]
+    · simp only [hneg, h2, if_true, if_false, true_and, and_false, and_true]
+      first | rfl | (split <;> rfl)
+  · simp only [hneg, if_false, false_and]
+    first | rfl | (split <;> rfl)
 
 /-- generated `queue_find` never lets an exception escape and = `Model/Deque.queueFind` -/
 theorem queueFind_eq {α : Type} [BEq α] [LawfulBEq α] (q : List α) (key : α → Bool) (rm : Bool) :
